@@ -37,6 +37,7 @@ RULE = ('Tabular files written by the harness from generated frames (int64, '
         'subprocess, which must agree. Non-trivial: a non-default flag and a '
         'failing constraint or record, or an error invocation; distinct by '
         'case hash.')
+RULE += ' ' + "Also: data file names with more than one dot (default constraints file beside them, and a decoy .tdda under the shorter name); a column named 'c0,c1' beside c0 and c1; sibling files whose types only match after repair (bools as 0/1 integers, digit strings read as numbers); the RowNumber column of detect output compared with the index of the in-memory detection frame."
 ASSUMPTIONS = ['both sides load the file with tdda\'s load_df, as the '
                'statement specifies: loader defects common to both are '
                'invisible here']
